@@ -98,7 +98,9 @@ def build_mcmc(arg):
     jacobians_list = create_jacobians(json_list)
     if arg.clock is not None and arg.heights == "ratio":
         jacobians_list.append("tree")
-    if arg.coalescent in COALESCENT_PIECEWISE:
+    # the centered GMRF is a prior on the unconstrained coalescent.theta.log; the
+    # non-centered one is a prior on log(theta) and needs the Jacobian of theta
+    if arg.coalescent in COALESCENT_PIECEWISE and not arg.coalescent_non_centered:
         jacobians_list.remove("coalescent.theta")
 
     joint_jacobian = {
